@@ -57,7 +57,7 @@ def _ast_type(tinfo):
 
 
 class Event:
-    __slots__ = ("kind", "T", "field", "fn", "bb", "site")
+    __slots__ = ("kind", "T", "field", "fn", "bb", "site", "sink")
 
     def __init__(self, kind, T, field, fn, bb, site):
         self.kind = kind      # 'eval' | 'assign'
@@ -66,6 +66,7 @@ class Event:
         self.fn = fn          # the non-closure function the event is ordered in
         self.bb = bb          # block in that function
         self.site = site      # printable location of the real call
+        self.sink = None      # callee the event was seen at (compile_expr, compile_stmt, track_walk ..)
 
     def key(self):
         return (self.kind, self.T, self.field)
@@ -201,7 +202,9 @@ def collect(prog, lab, fns, sinks):
                 continue
             for (T, fp) in lab.labels(f, c.args[ai]):
                 g, b = order_site(prog, f, c.bb)
-                evs.append(Event(kind, T, fp, g, b, "%s (%s)" % (f.path.split("::")[-1] if f.kind != "closure" else f.path.split("::")[-2] + "::{closure}", f.tloc(c.bb))))
+                ev_ = Event(kind, T, fp, g, b, "%s (%s)" % (f.path.split("::")[-1] if f.kind != "closure" else f.path.split("::")[-2] + "::{closure}", f.tloc(c.bb)))
+                ev_.sink = c.name
+                evs.append(ev_)
     return evs
 
 
